@@ -38,8 +38,82 @@
     ensures
         r is Ok ==> final(vx_log).s == old(vx_log).s + (if req_of_record(record) is Some { effs(*self.data_wrap, self.index_manager, req_of_record(record).unwrap()) } else { seq![] }),
         r is Err ==> final(vx_log).s == old(vx_log).s,
-@@ StateApplyManager::apply_snapshot external
-@@ StateApplyManager::apply_snapshot skip_body
+@@ StateApplyManager::apply_snapshot effects do_send
+@@ StateApplyManager::apply_snapshot effects_pass do_load_snapshot load_snapshot
+@@ StateApplyManager::apply_snapshot chain 1
+    env index_manager: Addr<RaftIndexManager>, file: Box<tokio::fs::File>, data_wrap: Arc<RaftDataHandler>, snapshot_manager: Addr<RaftSnapshotManager>, log_manager: Addr<RaftLogManager>
+    returns anyhow::Result<()>
+@@ StateApplyManager::apply_snapshot chain 1 spec
+    // the future of the handler (T20): what it sends, as a function of the snapshot file it was given
+    ensures
+        // @C08 the membership recorded in the snapshot goes to the index manager, unchanged, before anything else
+        r is Ok ==> snap_hdr(file.contents()) is Some && final(vx_log).s.len() > old(vx_log).s.len()
+            && final(vx_log).s.take(old(vx_log).s.len() as int) == old(vx_log).s
+            && final(vx_log).s[old(vx_log).s.len() as int] == snap_member_eff(index_manager, snap_hdr(file.contents()).unwrap()),   // @C08
+        r is Err ==> !snap_readable(*file),
+        ?!data_wrap r is Err ==> final(vx_log).s == old(vx_log).s,
+        ?data_wrap final(vx_log).s.len() >= old(vx_log).s.len() && final(vx_log).s.take(old(vx_log).s.len() as int) == old(vx_log).s,
+        ?data_wrap r is Ok && snap_readable(*file) ==> final(vx_log).s == old(vx_log).s.push(snap_member_eff(index_manager, snap_hdr(file.contents()).unwrap())) + snap_effs_all(*data_wrap, snap_recs(file.contents())),   // @C08 @S22
+@@ StateApplyManager::apply_snapshot chain 1 entry
+    broadcast use axiom_eff_save_member, axiom_arc_cloned, axiom_addr_tbl;
+    let ghost l0 = vx_log.s;
+@@ StateApplyManager::apply_snapshot after_call do_send 1
+    proof {
+        let hd = reader.hdr();
+        assert(vx_log.s.len() == l0.len() + 1);   // @C08
+        assert(vx_log.s.take(l0.len() as int) =~= l0);   // @C08
+        assert(*header == hd);   // @C08
+        assert(snap_hdr(file.contents()) == Some(hd));   // @C08
+        assert(vx_log.s[l0.len() as int].to == addr_id(index_manager));   // @C08
+        assert(vx_log.s[l0.len() as int] == snap_member_eff(index_manager, hd));   // @C08
+    }
+@@ StateApplyManager::apply_snapshot chain 1 before_tail
+    ?data_wrap proof { let rs = snap_recs(file.contents()); assert(rs.take(rs.len() as int) =~= rs); }   // @C08
+@@ StateApplyManager::apply_snapshot entry
+    broadcast use axiom_arc_cloned;
+@@ StateApplyManager::apply_snapshot spec
+    requires old(self).wired()
+    ensures
+        *final(self) == *old(self),
+        // @C08 (membership) a readable snapshot file: its membership is saved first
+        snap_readable(*file) ==> snap_hdr(file.contents()) is Some && final(vx_log).s.len() > old(vx_log).s.len()
+            && final(vx_log).s.take(old(vx_log).s.len() as int) == old(vx_log).s
+            && final(vx_log).s[old(vx_log).s.len() as int] == snap_member_eff(old(self).im(), snap_hdr(file.contents()).unwrap()),   // @C08
+        // @C08 @S22 (data) ... and every record of the snapshot is handed to the component that owns its tree, as a restart would
+        // do (the node must SERVE what the snapshot holds without being restarted)
+        snap_readable(*file) ==> final(vx_log).s == old(vx_log).s.push(snap_member_eff(old(self).im(), snap_hdr(file.contents()).unwrap()))
+            + snap_effs_all(old(self).h(), snap_recs(file.contents())),   // @C08 @S22
+        !snap_readable(*file) ==> final(vx_log).s == old(vx_log).s || final(vx_log).s.take(old(vx_log).s.len() as int) == old(vx_log).s,
+@@ StateApplyManager::do_load_snapshot effects_pass load_snapshot
+@@ StateApplyManager::do_load_snapshot strip_mut reader
+@@ StateApplyManager::do_load_snapshot spec
+    // C01 / C08: every record the reader still holds is handed to the component that owns its tree, in file order; a record
+    // that cannot be decoded is skipped (snap_effs of it is empty); an unreadable file ends the loading at the fault
+    ensures
+        r is Ok,
+        exists|k: int| 0 <= k <= reader.remaining().len() && (!reader.faulty() ==> k == reader.remaining().len())
+            && final(vx_log).s == old(vx_log).s + snap_effs_all(*data_wrap, #[trigger] reader.remaining().take(k)),
+@@ StateApplyManager::do_load_snapshot loop 1
+    invariant
+        reader.faulty() == reader0.faulty(),
+        0 <= k <= reader0.remaining().len(),
+        reader.remaining() == reader0.remaining().skip(k),
+        vx_log.s == l0 + snap_effs_all(*hw, reader0.remaining().take(k)), hw == data_wrap,
+    ensures
+        !reader0.faulty() ==> k == reader0.remaining().len(),
+    decreases reader0.remaining().len() - k,
+@@ StateApplyManager::do_load_snapshot entry
+    let ghost l0 = vx_log.s;
+    let ghost reader0 = reader;
+    let ghost mut k: int = 0;
+    let ghost hw = data_wrap;
+    proof { lemma_snap_effs_all_step_arc(hw, reader0.remaining(), 0); assert(l0 + Seq::<Eff>::empty() =~= l0); }
+@@ StateApplyManager::do_load_snapshot loop 1 body_entry
+    proof {
+        lemma_snap_effs_all_step_arc(hw, reader0.remaining(), k);
+    }
+@@ StateApplyManager::do_load_snapshot loop 1 body_exit
+    proof { k = k + 1; }
 @@ StateApplyManager::apply_request_to_state_machine effects_pass do_send_log
 @@ StateApplyManager::apply_request_to_state_machine spec
     requires old(self).wired()
@@ -54,7 +128,8 @@
         r is Ok ==> final(vx_log).s == (old(vx_log).s + effs(*raft_data_wrap, index_manager, request.request)).push(saved_applied(index_manager, request.index)),
         r is Err ==> final(vx_log).s == old(vx_log).s + effs(*raft_data_wrap, index_manager, request.request) || (undecodable(request.request) && final(vx_log).s == old(vx_log).s),
 @@ StateApplyManager::handle@Handler<StateApplyRequest> effects do_send
-@@ StateApplyManager::handle@Handler<StateApplyRequest> effects_pass apply_request_to_state_machine
+@@ StateApplyManager::handle@Handler<StateApplyRequest> effects_pass apply_request_to_state_machine apply_snapshot
+@@ StateApplyManager::handle@Handler<StateApplyRequest> t20_calls apply_snapshot
 @@ StateApplyManager::handle@Handler<StateApplyRequest> foriter 1 it
 @@ StateApplyManager::handle@Handler<StateApplyRequest> spec
     requires old(self).wired()
@@ -66,6 +141,11 @@
                 && (requests@.len() == 0 ==> final(self).last_applied_log == old(self).last_applied_log))
             && (r is Err ==> exists|i: int| 0 <= i < requests@.len() && undecodable(#[trigger] requests@[i].request))
         ),
+        // C08 (snapshot install, one message): the membership of the installed snapshot, then every record of it, handed to the
+        // components before the next message is handled
+        msg matches StateApplyRequest::ApplySnapshot { snapshot } ==> (snap_readable(*snapshot) ==>
+            final(vx_log).s == old(vx_log).s.push(snap_member_eff(old(self).im(), snap_hdr(snapshot.contents()).unwrap()))
+                + snap_effs_all(old(self).h(), snap_recs(snapshot.contents()))),   // @C08
 @@ StateApplyManager::handle@Handler<StateApplyRequest> loop 1
     invariant
         it.seq() == requests0@, self.wired(), msg == StateApplyRequest::ApplyBatchRequest(requests0),
@@ -118,3 +198,55 @@
         sent(self.namespace, RaftApplyDataRequest::LoadCompleted), sent(self.sequence_db, RaftApplyDataRequest::LoadCompleted),
         sent(self.mcp_manager, RaftApplyDataRequest::LoadCompleted), sent(self.naming_actor, RaftApplyDataRequest::LoadCompleted),
         sent(self.direct_cache_manager, RaftApplyDataRequest::LoadCompleted)],
+@@ LogRecordLoaderInstance::new spec
+    ensures r.data_wrap == data_wrap, r.index_manager == index_manager
+@@ StateApplyManager::load_complete effects_pass load_complete
+@@ StateApplyManager::load_complete spec
+    ensures *final(self) == *old(self),
+        final(vx_log).s == old(vx_log).s + (if old(self).data_wrap is Some { complete_effs(old(self).h()) } else { seq![] }),
+@@ StateApplyManager::load_log effects send
+@@ StateApplyManager::load_log effects_pass load_complete
+@@ StateApplyManager::load_log chain 1
+    env index_manager: Addr<RaftIndexManager>, data_wrap: Arc<RaftDataHandler>, snapshot_manager: Addr<RaftSnapshotManager>, log_manager: Addr<RaftLogManager>
+    env loader: Arc<LogRecordLoaderInstance>, start_index: u64, end_index: u64
+    returns anyhow::Result<()>
+@@ StateApplyManager::load_log chain 1 spec
+    ensures final(vx_log).s == old(vx_log).s.push(sent(log_manager, RaftLogManagerAsyncRequest::Load { start: start_index, end: end_index, loader })),
+@@ StateApplyManager::load_log spec
+    requires old(self).index_manager is Some, old(self).last_applied_log < u64::MAX
+    // @C01 @C07 the replay request names exactly the entries behind the snapshot, then loading is declared complete
+    ensures *final(self) == *old(self),
+        final(vx_log).s == old(vx_log).s + old(self).replay_effs(),
+@@ StateApplyManager::load_log entry
+    broadcast use axiom_arc_cloned, axiom_eff_load;
+    let ghost l0 = vx_log.s;
+@@ StateApplyManager::load_snapshot effects send
+@@ StateApplyManager::load_snapshot effects_pass load_log do_load_snapshot
+@@ StateApplyManager::load_snapshot t20_calls load_log
+@@ StateApplyManager::load_snapshot subst
+    SnapshotReader::init(&path) => SnapshotReader::init(path.as_str())
+@@ StateApplyManager::load_snapshot chain 1
+    env index_manager: Addr<RaftIndexManager>, data_wrap: Arc<RaftDataHandler>, snapshot_manager: Addr<RaftSnapshotManager>, log_manager: Addr<RaftLogManager>
+    returns anyhow::Result<()>
+@@ StateApplyManager::load_snapshot chain 1 spec
+    // the snapshot stage of a start-up: the snapshot manager is asked for the last snapshot; every record of the file it names is
+    // handed to the component that owns its tree, in file order (up to a read fault)
+    ensures
+        final(vx_log).s == old(vx_log).s.push(sent(snapshot_manager, RaftSnapshotRequest::GetLastSnapshot))
+        || exists|p: Seq<char>, k: int| 0 <= k <= snap_recs(disk_at_open(p)).len() && final(vx_log).s
+            == old(vx_log).s.push(sent(snapshot_manager, RaftSnapshotRequest::GetLastSnapshot)) + snap_effs_all(*data_wrap, #[trigger] snap_recs(disk_at_open(p)).take(k)),
+@@ StateApplyManager::load_snapshot spec
+    requires old(self).fully_wired()
+    // @C01 restart: snapshot stage (when there is a snapshot), then the replay stage — in this order, nothing else
+    ensures *final(self) == *old(self),
+        (old(self).snapshot_next_index == 0) ==> final(vx_log).s == old(vx_log).s + old(self).replay_effs(),
+        (old(self).snapshot_next_index != 0) ==> (
+            final(vx_log).s == old(vx_log).s.push(sent(old(self).snapshot_manager.unwrap(), RaftSnapshotRequest::GetLastSnapshot)) + old(self).replay_effs()
+            || exists|p: Seq<char>, k: int| 0 <= k <= snap_recs(disk_at_open(p)).len() && final(vx_log).s
+                == old(vx_log).s.push(sent(old(self).snapshot_manager.unwrap(), RaftSnapshotRequest::GetLastSnapshot))
+                    + snap_effs_all(old(self).h(), #[trigger] snap_recs(disk_at_open(p)).take(k)) + old(self).replay_effs()),
+@@ StateApplyManager::load_snapshot entry
+    broadcast use axiom_arc_cloned;
+    let ghost l0 = vx_log.s;
+@@ StateApplyManager::load_snapshot before_return 1
+    proof { assert(*self == *old(self)); assert(vx_log.s == l0 + old(self).replay_effs()); }
